@@ -42,6 +42,7 @@ type Finding struct {
 	Obligation string `json:"obligation"`
 	What       string `json:"what"`
 	Witness    string `json:"witness"`
+	HarnessTag string `json:"harness_tag"` // REPLAY-FAIL[<tag>] lines of the harness that reproduce this finding on the real code
 }
 
 type Findings struct {
@@ -443,16 +444,36 @@ func cmdCheck(args []string) int {
 	for _, g := range genFailures {
 		fails = append(fails, fail{"generator", g, "", ""})
 	}
+	<-replayDone
+	knownTags := map[string]bool{}
+	for _, f := range kf.Open {
+		if f.Property == *prop && f.HarnessTag != "" {
+			knownTags[f.HarnessTag] = true
+		}
+	}
+	witnessReplayed := map[string]int{}
+	for tag, ls := range rr.tagged {
+		if knownTags[tag] {
+			witnessReplayed[tag] = len(ls)
+		} else {
+			for _, l := range ls {
+				rr.fails = append(rr.fails, "["+tag+"] "+l)
+			}
+		}
+	}
 	for _, f := range kf.Open {
 		if f.Property == *prop {
 			if knownHit[f.Obligation] {
-				lines = append(lines, fmt.Sprintf("KNOWN-FINDING: property=%s %s [%s]", *prop, f.What, f.Obligation))
+				w := ""
+				if f.HarnessTag != "" {
+					w = fmt.Sprintf(" (witness replayed on the real code: %d failing case(s) tagged %s)", witnessReplayed[f.HarnessTag], f.HarnessTag)
+				}
+				lines = append(lines, fmt.Sprintf("KNOWN-FINDING: property=%s %s [%s]%s", *prop, f.What, f.Obligation, w))
 			} else {
 				lines = append(lines, fmt.Sprintf("NOTE: known finding %s no longer fails (%s)", f.Obligation, f.What))
 			}
 		}
 	}
-	<-replayDone
 	replayed := rr.cases
 	if ranReplay {
 		if rr.cases == 0 && len(rr.fails) == 0 {
@@ -614,6 +635,7 @@ func failedNames(rs []vc.Result) []string {
 
 type replayResult struct {
 	fails  []string
+	tagged map[string][]string // REPLAY-FAIL[tag]: ... lines, by tag
 	output string
 	cases  int
 }
@@ -646,6 +668,15 @@ func runReplay(repo string, cfg *PropCfg, prop string, seed int, tier string, mo
 		l = strings.TrimSpace(l)
 		if i := strings.Index(l, "REPLAY-FAIL:"); i >= 0 {
 			rr.fails = append(rr.fails, strings.TrimSpace(l[i+12:]))
+		}
+		if i := strings.Index(l, "REPLAY-FAIL["); i >= 0 {
+			rest := l[i+12:]
+			if j := strings.Index(rest, "]:"); j > 0 {
+				if rr.tagged == nil {
+					rr.tagged = map[string][]string{}
+				}
+				rr.tagged[rest[:j]] = append(rr.tagged[rest[:j]], strings.TrimSpace(rest[j+2:]))
+			}
 		}
 		if i := strings.Index(l, "REPLAY-CASES:"); i >= 0 {
 			n, _ := strconv.Atoi(strings.TrimSpace(l[i+13:]))
